@@ -284,6 +284,19 @@ fn scenario(fault: Fault) -> ExecResult {
 }
 
 pub fn main(args: &Args) -> i32 {
+    if let Some(p) = &args.replay {
+        return crate::sched::replay(p, |name, _| {
+            let (kind, n) = name.split_once('@')?;
+            let n: usize = n.trim_start_matches("call").parse().ok()?;
+            let f = match kind {
+                "read-eof" => Fault::ReadEof(n),
+                "read-err" => Fault::ReadErr(n),
+                "write-err" => Fault::WriteErr(n),
+                _ => return None,
+            };
+            Some(Box::new(move || scenario(f)))
+        });
+    }
     let report = Report::new("C38", args.tier, args.seed, "fault_enumeration");
     let totals = Mutex::new(Totals::default());
     let quick = args.tier == vcommon::Tier::Quick;
